@@ -92,7 +92,18 @@ def check_weight_pairing(ctx, model, p, want_dir):
            v.where(g[2]))
     ctx.ob("C13-W1", "%s|direction" % p, g[0] == a[0] == want_dir, "global: %s, address: %s, expected: %s" % (g[0], a[0], want_dir), v.where(g[2]))
     prev_ok = bool(a[3]) and all(o.kind == "load" and o.a.endswith("::state::ADDRESS_WEIGHT") for o in a[3])
-    ctx.ob("C13-W1", "%s|address-weight-read-modify-write" % p, prev_ok, "previous value from %s" % sorted(map(repr, a[3])), v.where(a[2]))
+    # the value is read, saved and recorded under one and the same address (the position's owner)
+    keys = {}
+    for nm, item, meths, ki in (("read", "ADDRESS_WEIGHT", ("may_load", "load"), 2), ("save", "ADDRESS_WEIGHT", ("save",), 2),
+                                ("positions", "OPEN_POSITIONS", ("update", "save", "may_load"), 2)):
+        for kb, kt in storage_calls(v, "incentive::state::%s" % item, meths):
+            keys.setdefault(nm, set()).update((o.kind, o.a, o.proj) for o in v.origins_of_operand(kt["args"][ki], at=v.at_term(kb)))
+    for kb, kt in storage_calls(v, "incentive::state::ADDRESS_WEIGHT_HISTORY", ("update", "save")):
+        keys.setdefault("history", set()).update((o.kind, o.a, o.proj) for o in v.origins_of_operand(kt["args"][2], proj=("0",), at=v.at_term(kb)))
+    same_key = len(keys) >= 3 and len({frozenset(x) for x in keys.values()}) == 1 and all(keys.values())
+    ctx.ob("C13-W1", "%s|address-weight-read-modify-write" % p, prev_ok and same_key,
+           "previous value from %s; keys used: %s (read / save / history / positions must be the same address)" % (
+               sorted(map(repr, a[3])), {k: sorted(map(str, x)) for k, x in keys.items()}), v.where(a[2]))
     # history gets the saved user weight, keyed (receiver, epoch + 1)
     hist = storage_calls(v, "incentive::state::ADDRESS_WEIGHT_HISTORY", ("update", "save"))
     if not hist:
